@@ -308,8 +308,10 @@ def find_counterexample(prop, violation, cfg, work):
                     return dict(harness=f['replay'], failed_check='native sampling finder', input_hex=None,
                                 replay_test=f['replay'], replayed_natively=True, native_output=rep['tail'],
                                 finder_bound=f.get('bound'))
-                return None
-            return find_and_replay(scratch, f, violation.get('where'))
+                continue    # nothing found: a later finder may match the same function
+            r = find_and_replay(scratch, f, violation.get('where'))
+            if r:
+                return r
     return None
 
 
